@@ -10,6 +10,34 @@ from . import values as V
 PROBE_KEYS = ["a", "b", "ab", "ba", "aa", "abc", "", "bb", "c", "0", "cab", "xa", "\U0001F600"]
 
 
+WITNESSES = ["", "a", "b", "ab", "ba", "abc", "aab", "bb", "c", "ac", "abab", "axb", "a.b", ".", "$", "a$", "$a", "15$", "^",
+             "^a", "0", "12", "a1", "1a", " ", "a b", "\\Z", "a\\Z", "a\n", "\na", "A", "AB", "\U0001F600", "\u00e9", "a\u00e9", "\u0661",
+             "aa", "aaa", "cab", "b\n"]
+
+
+def pattern_witnesses(pattern, n=3):
+    """Up to n strings that the pattern finds and up to n it does not, from a fixed list that contains the
+    characters the pattern pool is about (anchors, escapes, digits, blanks, line ends, non-ASCII)."""
+    try:
+        rx = re.compile(pattern)
+    except re.error:
+        return []
+    yes = [w for w in WITNESSES if rx.search(w)][:n]
+    no = [w for w in WITNESSES if not rx.search(w)][:n]
+    # the longest / last ones too: special characters sit at the end of the list
+    yes += [w for w in reversed(WITNESSES) if rx.search(w)][:n]
+    no += [w for w in reversed(WITNESSES) if not rx.search(w)][:1]
+    return _uniq_strs(yes + no)
+
+
+def _uniq_strs(xs):
+    out = []
+    for x in xs:
+        if x not in out:
+            out.append(x)
+    return out
+
+
 def _matching_keys(pattern):
     out = []
     try:
@@ -314,6 +342,8 @@ def probes(s, limit=40, depth=0):
             out.append("a" * l)
             out.append(("ab" * l)[:l])
         out += ["b", "ba", "cab", "\U0001F600", "aa"]
+        if isinstance(s.get("pattern"), str):
+            out += pattern_witnesses(s["pattern"])
     # objects
     keys = _uniq(h["keys"])[:6]
     objk = ("properties", "required", "additionalProperties", "patternProperties", "dependencies",
